@@ -5,6 +5,8 @@ pub mod c01;
 pub mod c04;
 pub mod c05;
 pub mod c06;
+pub mod c10;
+pub mod c11;
 pub mod c14;
 
 pub fn run(id: &str, eng: &Engine) {
@@ -13,6 +15,8 @@ pub fn run(id: &str, eng: &Engine) {
         "C04" => c04::run(eng),
         "C05" => c05::run(eng),
         "C06" => c06::run(eng),
+        "C10" => c10::run(eng),
+        "C11" => c11::run(eng),
         "C14" => c14::run(eng),
         _ => {
             println!("INCONCLUSIVE unknown property {id}");
@@ -27,6 +31,8 @@ pub fn replay(id: &str, eng: &Engine, stage: &str, case: &Value) -> CaseResult {
         "C04" => c04::replay(eng, stage, case),
         "C05" => c05::replay(eng, stage, case),
         "C06" => c06::replay(eng, stage, case),
+        "C10" => c10::replay(eng, stage, case),
+        "C11" => c11::replay(eng, stage, case),
         "C14" => c14::replay(eng, stage, case),
         _ => Err(Failure::new("machinery", format!("unknown property {id}"))),
     }
